@@ -176,7 +176,7 @@ def pool(ctx):
     # seeded extras: random doubles with neighbours in Z and Q
     rng = ctx.rng
     extra = []
-    for _ in range(ctx.n(6, 40)):
+    for _ in range(ctx.n(6, 25)):
         kind = rng.choice(["bits", "mid", "bigint", "pow"])
         if kind == "bits":
             b = rng.getrandbits(64)
@@ -726,6 +726,112 @@ def evaluate_sorts(ctx, P, runner):
     return len(flat), ties, {f: sum(1 for (ff, _, _), _, _ in flat if ff == f) for f in ("sort", "vsort", "sort_on", "min", "max")}
 
 
+# ----------------------------------------------------------------------------- Rust API level (harness bin c08)
+def api_json(v):
+    t = v[0]
+    if t == "int":
+        return {"t": "I" if v[2] else "i", "v": str(v[1])}
+    if t == "rat":
+        return {"t": "r", "n": str(v[1].numerator), "d": str(v[1].denominator)}
+    if t == "float":
+        return {"t": "f", "b": str(v[1])}
+    return {"t": "c", "re": str(v[1]), "im": str(v[2])}
+
+
+def api_model(v):
+    t = v[0]
+    if t == "int":
+        return f"{'I' if v[2] else 'i'} {v[1]}"
+    if t == "rat":
+        return f"r {v[1].numerator} {v[1].denominator}"
+    if t == "float":
+        return f"f {v[1]}"
+    return f"c {v[1]} {v[2]}"
+
+
+def api_pool(ctx, P):
+    vals = []
+    for x in P:
+        v = x["py"]
+        if v[0] == "int":
+            vals.append(("int", v[1], True))
+            if -2 ** 63 <= v[1] < 2 ** 63:
+                vals.append(("int", v[1], False))
+        elif v[0] in NUMK:
+            vals.append(v)
+    sp = [0, 1 << 63, f2b(1.0), f2b(-1.0), f2b(0.5), f2b(float("inf")), f2b(float("-inf")), NAN_BITS, 0xfff8000000000001, 0x7ff0000000000001, 1, f2b(2.0 ** 53)]
+    for re in sp:
+        for im in sp:
+            vals.append(("complex", re, im))
+    vals += [("float", 0xfff8000000000001), ("float", 0x7ff0000000000001), ("float", 0xffffffffffffffff)]
+    for _ in range(ctx.n(10, 100)):
+        vals.append(("complex", ctx.rng.getrandbits(64), ctx.rng.getrandbits(64)))
+    out, seen = [], set()
+    for v in vals:
+        if v not in seen:
+            seen.add(v)
+            out.append(v)
+    return out
+
+
+def api_isnan(v):
+    return (v[0] == "float" and is_nan_bits(v[1])) or (v[0] == "complex" and (is_nan_bits(v[1]) or is_nan_bits(v[2])))
+
+
+def api_oracle(a, b):
+    """[pcmp, eq, min, max, teq]; None = no opinion (NaN handling of complex numbers in min/max)"""
+    pa = a[:2] if a[0] == "int" else a
+    pb = b[:2] if b[0] == "int" else b
+    c = num_cmp(pa, pb)
+    e = num_eq(pa, pb)
+    na, nb = api_isnan(a), api_isnan(b)
+    if not na and not nb:
+        mn, mx = ("a" if c <= 0 else "b"), ("a" if c > 0 else "b")     # ties: min keeps the left, max the right
+    elif a[0] != "complex" and b[0] != "complex" and na != nb:
+        mn = mx = ("b" if na else "a")                                   # one NaN: the other argument
+    else:
+        mn = mx = None
+    return ["n" if c is None else str(c), str(int(e)), mn, mx, str(int(e or (na and nb)))]
+
+
+def evaluate_api(ctx, P, runner):
+    vals = api_pool(ctx, P)
+    n = len(vals)
+    pairs = [(i, j) for i in range(n) for j in range(n)]
+    if ctx.quick() and len(pairs) > 30000:
+        keep = set(range(0, n, 2))
+        pairs = [(i, j) for (i, j) in pairs if i in keep or j in keep or vals[i][0] == "complex" or vals[j][0] == "complex"]
+        ctx.rng.shuffle(pairs)
+        pairs = pairs[:30000]
+    chunks = [pairs[k:k + 2000] for k in range(0, len(pairs), 2000)]
+    jv = [api_json(v) for v in vals]
+    res = common.run_harness(common.harness_bin("c08"), [{"vals": jv, "pairs": ch} for ch in chunks], timeout=120.0, workers=min(common.NPROC, len(chunks)))
+    impl = []
+    for ch, r in zip(chunks, res):
+        rs = r.get("res") if isinstance(r, dict) else None
+        impl += rs if rs and len(rs) == len(ch) else [r.get("status", "abort") if isinstance(r, dict) else "abort"] * len(ch)
+    mres = common.run_model(runner, [f"num {api_model(vals[i])} {api_model(vals[j])}" for i, j in pairs]) if runner else [None] * len(pairs)
+    reported = 0
+    names = ["partial_cmp", "==", "NNum::min", "NNum::max", "total_eq"]
+    for (i, j), o, m in zip(pairs, impl, mres):
+        orc = api_oracle(vals[i], vals[j])
+        got = o.split(" ")
+        doc = {"case": {"op": "api", "a": api_json(vals[i]), "b": api_json(vals[j])}, "implementation": o, "coq_model": m,
+               "fraction_oracle": orc, "observables": names}
+        if len(got) != 5 or any(w is not None and g != w for g, w in zip(got, orc)):
+            if reported < 2:
+                doc["what"] = "Rust API (NNum partial_cmp / == / min / max / total_eq) differs from the exact values"
+                ctx.violation("property", doc, found=True)
+            reported += 1
+        elif m is not None and o != m:
+            if reported < 2:
+                doc["what"] = "correspondence (nnum_* functions) no longer checks; the oracle accepts the implementation's answer"
+                ctx.violation("correspondence", doc, found=False)
+            reported += 1
+    return len(pairs), n
+
+
+
 def evaluate_decode(ctx, P, runner):
     """the Gallina decoder against Python's exact Fraction(float), on the pool's doubles and random bit patterns"""
     if not runner:
@@ -763,6 +869,7 @@ def run(ctx):
     n_chain = evaluate_chains(ctx, P, runner)
     n_sort, ties, by_form = evaluate_sorts(ctx, P, runner)
     n_dec = evaluate_decode(ctx, P, runner)
+    n_api, n_api_vals = evaluate_api(ctx, P, runner)
 
     def level(x):
         return x["k"]
@@ -787,10 +894,11 @@ def run(ctx):
         kinds[x["k"]] = kinds.get(x["k"], 0) + 1
     samples_idx = list(T)[:: max(1, len(T) // 14)][:14]
     ctx.coverage.update({
-        "evaluations": n_grid + n_chain + n_sort,
-        "distinct_nontrivial": cross + n_chain + n_sort,
+        "evaluations": n_grid + n_chain + n_sort + n_api,
+        "distinct_nontrivial": cross + n_chain + n_sort + n_api,
         "rule": "every (operator, a, b) of the full pool x pool grid is distinct by construction; non-trivial = the two operands are numbers of "
-                "different levels (int/rational/float/complex), or the case is a chain / sort / sort_on / min / max of 2-6 pool values. "
+                "different levels (int/rational/float/complex), or the case is a chain / sort / sort_on / min / max of 2-6 pool values, "
+                "or a Rust-API pair (each yields five observables: partial_cmp, ==, NNum::min, NNum::max, total_eq). "
                 "`rounding_sensitive_pairs` counts mixed float/exact pairs whose answer would change if the exact side were rounded to a double.",
         "pool_size": len(P), "pool_kinds": kinds,
         "grid_evaluations": n_grid, "grid_mismatches": n_bad, "cross_level_grid_evaluations": cross,
@@ -798,6 +906,7 @@ def run(ctx):
         "law_checks_on_implementation_grid": n_laws,
         "chains": n_chain, "sorts_and_extrema": n_sort, "sorts_with_distinguishable_ties": ties, "by_form": by_form,
         "decoder_checks_vs_python_fraction": n_dec,
+        "rust_api_pairs": n_api, "rust_api_values": n_api_vals,
         "impl_outcomes": {o: sum(1 for v in T.values() if (v or "abort").split(" ")[0] == o) for o in ("ok", "err", "panic", "hang", "abort")},
         "samples": [{"program": f"{P[i]['src']} {dict(OPS, cmp='<=>', rcmp='>=<').get(op, op)} {P[j]['src']}", "implementation": T[(op, i, j)]}
                     for (op, i, j) in samples_idx],
